@@ -208,6 +208,23 @@ static json call(const json& q) {
 	else if (fn == "C_DestroyObject") rv = P->C_DestroyObject(S(q, "s"), S(q, "o"));
 	else if (fn == "C_GetObjectSize") { CK_ULONG n = 0; rv = P->C_GetObjectSize(S(q, "s"), S(q, "o"), q.value("null", false) ? nullptr : &n); r["size"] = (uint64_t)n; }
 	else if (fn == "C_GetAttributeValue") { Tmpl t; t.build(q.value("tmpl", json::array())); rv = P->C_GetAttributeValue(S(q, "s"), S(q, "o"), t.ptr(), t.count()); if (!t.isnull) r["tmpl"] = t.report_outputs(q["tmpl"]); }
+	else if (fn == "X_GetTemplateAttr") { // extension: read an array attribute (CKA_WRAP_TEMPLATE, ...) with the three-step protocol (size, types+sizes, values)
+		CK_SESSION_HANDLE s = S(q, "s"); CK_OBJECT_HANDLE o = S(q, "o"); CK_ATTRIBUTE a; a.type = S(q, "t"); a.pValue = nullptr; a.ulValueLen = 0; json l = json::array();
+		rv = P->C_GetAttributeValue(s, o, &a, 1);
+		if (rv == CKR_OK && a.ulValueLen != (CK_ULONG)-1) {
+			size_t n = a.ulValueLen / sizeof(CK_ATTRIBUTE); r["n"] = (uint64_t)n; r["bytes"] = (uint64_t)a.ulValueLen;
+			if (n) {
+				std::vector<CK_ATTRIBUTE> v(n); memset(v.data(), 0, n * sizeof(CK_ATTRIBUTE)); std::vector<bytes> bufs(n);
+				a.pValue = v.data(); a.ulValueLen = n * sizeof(CK_ATTRIBUTE); rv = P->C_GetAttributeValue(s, o, &a, 1);
+				if (rv == CKR_OK) {
+					for (size_t i = 0; i < n; i++) { size_t len = v[i].ulValueLen == (CK_ULONG)-1 ? 0 : v[i].ulValueLen; bufs[i].assign(len ? len : 1, 0); v[i].pValue = bufs[i].data(); }
+					a.ulValueLen = n * sizeof(CK_ATTRIBUTE); rv = P->C_GetAttributeValue(s, o, &a, 1);
+					for (size_t i = 0; i < n; i++) { json e; e["t"] = (uint64_t)v[i].type; bool un = v[i].ulValueLen == (CK_ULONG)-1; if (un) e["len"] = -1; else e["len"] = (uint64_t)v[i].ulValueLen; e["data"] = (rv == CKR_OK && !un && v[i].ulValueLen <= bufs[i].size()) ? hex(bufs[i].data(), v[i].ulValueLen) : std::string(); l.push_back(e); }
+				}
+			}
+		}
+		r["attrs"] = l;
+	}
 	else if (fn == "C_SetAttributeValue") { Tmpl t; t.build(q.value("tmpl", json::array())); rv = P->C_SetAttributeValue(S(q, "s"), S(q, "o"), t.ptr(), t.count()); }
 	else if (fn == "C_FindObjectsInit") { Tmpl t; t.build(q.value("tmpl", json::array())); rv = P->C_FindObjectsInit(S(q, "s"), t.a.empty() && !q.value("force_ptr", false) ? nullptr : t.ptr(), t.count()); }
 	else if (fn == "C_FindObjects") { CK_ULONG mx = q.value("max", (uint64_t)16), n = 0; CK_OBJECT_HANDLE* v = (CK_OBJECT_HANDLE*)malloc((mx ? mx : 1) * sizeof(CK_OBJECT_HANDLE)); rv = P->C_FindObjects(S(q, "s"), q.value("null", false) ? nullptr : v, mx, &n); json l = json::array(); if (rv == CKR_OK) for (CK_ULONG i = 0; i < n && i < mx; i++) l.push_back((uint64_t)v[i]); r["n"] = (uint64_t)n; r["objs"] = l; free(v); }
